@@ -19,26 +19,6 @@ From Verif Require Import Common.Base Model.SampleBuilder Model.SampleBuilderSpe
 Open Scope N_scope.
 Ltac Zify.zify_post_hook ::= Z.div_mod_to_equations.
 
-(* ---------- the log ---------- *)
-Definition ev_src (e : ev) : N := match e with EvAnchor a _ _ => a | EvMove _ h _ => h | EvSkip h => h end.
-Definition ev_end (e : ev) : N := match e with EvAnchor _ h _ => h | EvMove _ _ t => t | EvSkip h => inc16 h end.
-Definition ev_len (e : ev) : N := sub16 (ev_end e) (ev_src e).
-Definition is_sample_ev (e : ev) : bool := match e with EvMove 0 _ _ => true | _ => false end.
-
-(* forward distance travelled since the end of the last built sample (log newest first) *)
-Fixpoint gapl (l : list ev) : option N :=
-  match l with
-  | [] => None
-  | e :: l' => if is_sample_ev e then Some 0
-               else match gapl l' with Some g => Some (g + ev_len e) | None => None end
-  end.
-
-Fixpoint log_ok (l : list ev) : Prop :=
-  match l with
-  | [] => True
-  | e :: l' => log_ok l' /\ (is_sample_ev e = false -> forall g, gapl l' = Some g -> g + ev_len e < 32767)
-  end.
-
 (* the same as a boolean, for examples *)
 Fixpoint log_okb (l : list ev) : bool :=
   match l with
